@@ -164,6 +164,10 @@ def r2(ctx):
     parts = g.parts if isinstance(g, tm.And) else [g]
     ctx.check(any(pp.key in accepted for pp in parts), fi, "repopulation is guarded by `round index > 0`",
               line=nodes["repopulate"].lineno, role="guard:repopulate", expected="if current_iteration > 0", found=str(g))
+    rest = [pp for pp in parts if pp.key not in accepted and pp != tm.TRUE]
+    ctx.check(not rest, fi, "repopulation is attempted in every round after the first (no further condition in the main loop)",
+              line=nodes["repopulate"].lineno, role="covers:repopulate", expected="no condition besides `round index > 0`",
+              found=" & ".join(map(str, rest)))
     # threading of the state
     names = {p: ml.assigned_name(n) for p, n in nodes.items()}
     for p in PHASES:
